@@ -298,7 +298,7 @@ def main(argv):
 
     # ---------------- proof obligations
     tp = time.time()
-    c.proof_step(res, PID, extra_targets=["EvalInst.vo"])
+    c.proof_step(res, PID, extra_targets=["EvalInst.vo", "AllRun.vo"])
     c.log("proof step %.1fs" % (time.time() - tp))
 
     tally = Tally()
@@ -501,6 +501,10 @@ def main(argv):
         corr = correspondence(h, hd, rng, quick, res)
         streams.update(corr)
         c.log("correspondence %.1fs" % (time.time() - tp))
+        # the complete built-in set (coq/EvalAll.v, oracle tables from the harness): its own generator state
+        tp = time.time()
+        streams["ALL"] = es.run_all_stream(h, c.Rng(seed + 0x0A11), quick, res, cli=cli_r, tag="c01all")
+        c.log("ALL correspondence %.1fs" % (time.time() - tp))
     except c.BrokenTie as e:
         res.tie_broken(e.what, e.detail)
 
